@@ -896,3 +896,130 @@ def _modpair_function(out, idx, mod, cls, fn, src, chk, clsname=None):
                     % (q, scen, '; some scenarios still exceed the path budget' if overflow else ''))
     elif overflow:
         out.observe('%s: path budget exceeded in C01.modpair, remaining paths not explored' % q)
+
+
+# ---------------------------------------------------------------------------------------------------------------
+# C01.recode: a parser that works on a re-coded deep copy of its input (traditional -> simplified, full-width -> half-width
+# character maps) must give the returned result the ORIGINAL text back: start/length address the query, so text has to be
+# the query's own characters (lower-cased), not the re-coded ones.  Must-pass-through on the function's statement list.
+
+RECODE_CONTROL = '''
+def parse(self, source):
+    simplified = copy.deepcopy(source)
+    simplified.text = self.fold(source.text)
+    result = self.inner(simplified)
+    if result is not None:
+        result.text = result.text.lower()
+    return result
+'''
+
+
+def recode_sites(fn):
+    """[(P, L, [(R, call node)], restore statements {R: [Assign]}, returns {R: [Return]})] for recoded deep copies in fn"""
+    params = {a.arg for a in fn.args.args} - {'self', 'cls'}
+    copies = {}
+    for n in ast.walk(fn):
+        if isinstance(n, (ast.Assign, ast.AnnAssign)):
+            tgt = n.targets[0] if isinstance(n, ast.Assign) and len(n.targets) == 1 else getattr(n, 'target', None)
+            v = n.value
+            if isinstance(tgt, ast.Name) and isinstance(v, ast.Call) and v.args and isinstance(v.args[0], ast.Name) \
+                    and v.args[0].id in params:
+                f = v.func
+                nm = f.attr if isinstance(f, ast.Attribute) else f.id if isinstance(f, ast.Name) else ''
+                if nm in ('deepcopy', 'copy'):
+                    copies[tgt.id] = v.args[0].id
+    out = []
+    for L, P in copies.items():
+        recoded = [n for n in ast.walk(fn) if isinstance(n, ast.Assign) and len(n.targets) == 1
+                   and isinstance(n.targets[0], ast.Attribute) and n.targets[0].attr == 'text'
+                   and isinstance(n.targets[0].value, ast.Name) and n.targets[0].value.id == L and isinstance(n.value, ast.Call)]
+        if not recoded:
+            continue
+        produced = {}
+        for n in ast.walk(fn):
+            if isinstance(n, ast.Assign) and len(n.targets) == 1 and isinstance(n.targets[0], ast.Name) \
+                    and isinstance(n.value, ast.Call) and any(isinstance(a, ast.Name) and a.id == L for a in n.value.args):
+                produced.setdefault(n.targets[0].id, []).append(n)
+        returns = {}
+        for n in ast.walk(fn):
+            if isinstance(n, ast.Return) and isinstance(n.value, ast.Name) and n.value.id in produced:
+                returns.setdefault(n.value.id, []).append(n)
+        restores = {}
+        for n in ast.walk(fn):
+            if isinstance(n, ast.Assign) and len(n.targets) == 1 and isinstance(n.targets[0], ast.Attribute) \
+                    and n.targets[0].attr == 'text' and isinstance(n.targets[0].value, ast.Name) and n.targets[0].value.id in produced:
+                restores.setdefault(n.targets[0].value.id, []).append(n)
+        out.append((P, L, produced, restores, returns))
+    return out
+
+
+def recode_verdicts(fn):
+    """[(R, ok, detail, line)]"""
+    res = []
+    for P, L, produced, restores, returns in recode_sites(fn):
+        for R, calls in sorted(produced.items()):
+            rets = [r for r in returns.get(R, []) if r.lineno > min(c.lineno for c in calls)]
+            if not rets:
+                continue
+            last_call = max(c.lineno for c in calls)
+            good = []
+            for a in restores.get(R, []):
+                names = {x.id for x in ast.walk(a.value) if isinstance(x, ast.Name)}
+                from_param = any(isinstance(x, ast.Attribute) and x.attr == 'text' and isinstance(x.value, ast.Name) and x.value.id == P
+                                 for x in ast.walk(a.value))
+                if from_param and names <= {P, 'str'} and a.lineno > last_call:
+                    good.append(a)
+            if not good:
+                res.append((R, False, 'the result `%s` of parsing the re-coded copy `%s` is returned without its text being set '
+                                      'back from %s.text after the last sub-parser call (line %d)' % (R, L, P, last_call),
+                            rets[0].lineno))
+                continue
+            first_good = min(a.lineno for a in good)
+            early = [r for r in rets if r.lineno < first_good]
+            if early:
+                res.append((R, False, '`return %s` at line %d precedes the statement that restores %s.text from %s.text'
+                            % (R, early[0].lineno, R, P), early[0].lineno))
+                continue
+            # the restore must be unconditional up to a None test of R
+            par = {}
+            for n in ast.walk(fn):
+                for ch in ast.iter_child_nodes(n):
+                    par[ch] = n
+            a = good[0]
+            cur, conds = a, []
+            while par.get(cur) is not fn and par.get(cur) is not None:
+                cur = par[cur]
+                if isinstance(cur, (ast.If, ast.While, ast.For, ast.Try)):
+                    conds.append(cur)
+            bad = [c for c in conds if not (isinstance(c, ast.If) and ast.unparse(c.test) in
+                                            ('%s is not None' % R, R, 'not %s is None' % R, '%s != None' % R))]
+            if bad:
+                res.append((R, False, 'the statement restoring %s.text is conditional on `%s`' % (R, ast.unparse(bad[0].test)
+                                                                                                  if isinstance(bad[0], ast.If) else type(bad[0]).__name__),
+                            a.lineno))
+            else:
+                res.append((R, True, '%s.text restored from %s.text at line %d, after the last sub-parser call, before every return'
+                            % (R, P, a.lineno), a.lineno))
+    return res
+
+
+def run_recode(chk, idx):
+    rid = 'C01.recode'
+    chk.rule(rid, 'a result obtained by parsing a re-coded deep copy of the input gets the input\'s own text back before it is '
+                  'returned', floor=1, control=True)
+    ctl = recode_verdicts(ast.parse(RECODE_CONTROL).body[0])
+    chk.control(rid, len(ctl) == 1 and ctl[0][1] is False)
+    for mod, cls, fn in lib_functions(idx):
+        for R, ok, detail, line in recode_verdicts(fn):
+            chk.consulted(mod.path)
+            chk.judge(ok, rid, mod.path, qual(cls, fn) + '::' + R, 'restored from the parameter' if ok else 'not restored',
+                      qual(cls, fn) + ': ' + detail + ' - start/length address the query but text would show the re-coded characters',
+                      line)
+
+
+_run_before_recode = run
+
+
+def run(chk):       # noqa: F811
+    _run_before_recode(chk)
+    run_recode(chk, get_index())
